@@ -16,14 +16,19 @@ class HelloRoute(HttpWebServerBasePlugin):
 
 
 class Routes(ReverseProxyBasePlugin):
-    """Reverse-proxy routes: /get -> up1.example:80/get ; /api/.* -> up2.example:8080/v1 ; /both -> either upstream."""
+    """Reverse-proxy routes: /get -> up1.example:80/get ; /api/.* -> up2.example:8080/v1 ; /both -> either upstream ; /lit -> literal response."""
 
     def routes(self):
         return [
             (r'/get$', [b'http://up1.example/get']),
             (r'/api/', [b'http://up2.example:8080/v1']),
             (r'/both$', [b'http://up1.example/a', b'http://up2.example:8080/b']),
+            r'/lit$',
         ]
+
+    def handle_route(self, request, pattern):
+        # dynamic route answered locally with a literal response (no upstream involved)
+        return memoryview(b'HTTP/1.1 200 OK\r\nX-Origin: literal#/lit\r\nContent-Length: 6\r\n\r\nA:/lit')
 
 
 FLAGS = {
